@@ -259,6 +259,7 @@ func (channel *Channel) handleContentBody(bodyFrame *amqp.Frame) *amqp.Error {
 
 	vhost := channel.conn.GetVirtualHost()
 	message := channel.currentMessage
+	channel.currentMessage = nil
 	ex := vhost.GetExchange(message.Exchange)
 	if ex == nil {
 		channel.SendContent(
